@@ -21,7 +21,10 @@ CSeq == << Rec(<<R("a","in")>>, None, <<>>, <<>>, <<"a">>, TRUE),
            Rec(<<R("a","in"), R("b","follow")>>, None, <<>>, <<>>, <<"a">>, TRUE) >>
 DSeq == << Rec(<<R("c","in")>>, None, <<>>, <<>>, <<"c">>, TRUE),
            Rec(<<R("b","in")>>, None, <<>>, <<>>, <<"b">>, TRUE),
-           Rec(<<R("a","in")>>, None, <<>>, <<>>, <<"a">>, TRUE) >>
+           Rec(<<R("a","in")>>, None, <<>>, <<>>, <<"a">>, TRUE),
+           (* d discovers the derived key c while it runs (c may in turn request d: a cycle that exists only *)
+           (* among RECORDED dependencies once both are up to date and merely scanned)                       *)
+           [Rec(<<R("a","in")>>, None, <<>>, <<>>, <<"a">>, TRUE) EXCEPT !.disc = <<"c">>] >>
 WithSigs(sq) == { [sq[i] EXCEPT !.sig = i] : i \in 1..Len(sq) }
 Progs == { [k \in K |-> IF k \in L THEN Leaf ELSE IF k = "b" THEN b ELSE IF k = "c" THEN c ELSE d] :
              b \in WithSigs(BSeq), c \in WithSigs(CSeq), d \in WithSigs(DSeq) }
